@@ -977,8 +977,27 @@ pub fn det_uuid(seed: u64, kind: u64, n: u64) -> Uuid {
     Uuid::from_bytes(b)
 }
 
+/// Which family the client ids of this process are drawn from (ids are values too: a lossy
+/// encoding somewhere below can make two of them the same key).
+/// 0: pseudo-random v4 ids; 1: all-decimal ids that differ in their last digit only; 2: tiny
+/// ids (…0001, …0002, …); 3: the nil id, the all-ones id, and ids differing in one bit.
+static ID_FAMILY: std::sync::atomic::AtomicU8 = std::sync::atomic::AtomicU8::new(0);
+
+pub fn set_id_family(f: u8) {
+    ID_FAMILY.store(f, Ordering::SeqCst);
+}
+
 pub fn client_uuid(seed: u64, c: Cid) -> Uuid {
-    det_uuid(seed, 1, c as u64)
+    match ID_FAMILY.load(Ordering::SeqCst) {
+        1 => Uuid::parse_str(&format!("31415926-5358-4979-8323-8462643{:05}", 38327 + c as u32)).unwrap(),
+        2 => Uuid::from_u128(1 + c as u128),
+        3 => match c {
+            0 => Uuid::nil(),
+            1 => Uuid::from_u128(u128::MAX),
+            _ => Uuid::from_u128(u128::MAX ^ (1u128 << (c as u32 % 128))),
+        },
+        _ => det_uuid(seed, 1, c as u64),
+    }
 }
 
 #[derive(Clone, Debug)]
